@@ -64,3 +64,19 @@ deriving instance DecidableEq for Except
 /-- `np.arange(start, stop, step)` for `step > 0`: `start + i*step` for `i < ⌈(stop-start)/step⌉` -/
 def pyArange (start stop step : Rat) : List Rat :=
   (List.range ((stop - start) / step).ceil.toNat).map (fun (i : Nat) => start + (i : Rat) * step)
+
+/-- result of a translated `for` loop that can leave the function early: `ret r` = the function returns
+(or raises) `r`; `done s` = the loop ended (normally or by `break`) with state `s` -/
+inductive Loop (ρ σ : Type) where
+  | ret (r : ρ)
+  | done (s : σ)
+
+/-- Python dict with arbitrary keys: association list in insertion order -/
+abbrev AList (κ ν : Type) := List (κ × ν)
+def alistHas {κ ν : Type} [BEq κ] (d : AList κ ν) (k : κ) : Bool := d.any (fun p => p.1 == k)
+def alistGet? {κ ν : Type} [BEq κ] (d : AList κ ν) (k : κ) : Option ν := (d.find? (fun p => p.1 == k)).map (·.2)
+/-- `d[k] = v`: overwrite in place when the key exists, append otherwise -/
+def alistSet {κ ν : Type} [BEq κ] (d : AList κ ν) (k : κ) (v : ν) : AList κ ν :=
+  if alistHas d k then d.map (fun p => if p.1 == k then (p.1, v) else p) else d ++ [(k, v)]
+/-- `s.add(x)` on a set kept as a duplicate-free list -/
+def pySetAdd {α : Type} [BEq α] (s : List α) (x : α) : List α := if s.elem x then s else s ++ [x]
